@@ -558,7 +558,7 @@ func ruleGetters(w *World, r *Report, pfx string, trig, pred *ssa.Function, opts
 		})
 		// the direct (post-exit) arm returns the same field of b.bs
 		okDirect := false
-		w.enumPaths(off.Fn, pathOpts{InlineDepth: 0}, func(p *Path) {
+		w.enumPaths(off.Fn, off.opts(w), func(p *Path) {
 			if p.armTaken(off.Sel) == off.State || p.Exit != "return" || len(p.Ret) != 1 {
 				return
 			}
